@@ -1070,7 +1070,6 @@ static ares_status_t ares_dns_write_rr(const ares_dns_record_t *dnsrec,
      * position */
     end_length = ares_buf_len(buf);
     rdlength   = end_length - pos_len - 2;
-
     status = ares_buf_set_length(buf, pos_len);
     if (status != ARES_SUCCESS) {
       return status;
@@ -1090,18 +1089,13 @@ static ares_status_t ares_dns_write_rr(const ares_dns_record_t *dnsrec,
   return ARES_SUCCESS;
 }
 
-ares_status_t ares_dns_write_buf(const ares_dns_record_t *dnsrec,
-                                 ares_buf_t              *buf)
+/* Name compression pointers are offsets from the start of the message, which
+ * are recorded from the buffer length while writing: buf must be empty. */
+static ares_status_t ares_dns_write_buf_int(const ares_dns_record_t *dnsrec,
+                                            ares_buf_t              *buf)
 {
   ares_llist_t *namelist = NULL;
-  size_t        orig_len;
   ares_status_t status;
-
-  if (dnsrec == NULL || buf == NULL) {
-    return ARES_EFORMERR;
-  }
-
-  orig_len = ares_buf_len(buf);
 
   status = ares_dns_write_header(dnsrec, buf);
   if (status != ARES_SUCCESS) {
@@ -1130,6 +1124,43 @@ ares_status_t ares_dns_write_buf(const ares_dns_record_t *dnsrec,
 
 done:
   ares_llist_destroy(namelist);
+  return status;
+}
+
+ares_status_t ares_dns_write_buf(const ares_dns_record_t *dnsrec,
+                                 ares_buf_t              *buf)
+{
+  ares_buf_t   *msg = NULL;
+  size_t        orig_len;
+  ares_status_t status;
+
+  if (dnsrec == NULL || buf == NULL) {
+    return ARES_EFORMERR;
+  }
+
+  orig_len = ares_buf_len(buf);
+
+  if (orig_len == 0) {
+    status = ares_dns_write_buf_int(dnsrec, buf);
+  } else {
+    /* buf already holds data (e.g. the TCP length prefix or earlier messages),
+     * write the message on its own so offsets are relative to its start */
+    size_t               msg_len = 0;
+    const unsigned char *ptr;
+
+    msg = ares_buf_create();
+    if (msg == NULL) {
+      return ARES_ENOMEM; /* LCOV_EXCL_LINE: OutOfMemory */
+    }
+
+    status = ares_dns_write_buf_int(dnsrec, msg);
+    if (status == ARES_SUCCESS) {
+      ptr    = ares_buf_peek(msg, &msg_len);
+      status = ares_buf_append(buf, ptr, msg_len);
+    }
+    ares_buf_destroy(msg);
+  }
+
   if (status != ARES_SUCCESS) {
     ares_buf_set_length(buf, orig_len);
   }
